@@ -340,7 +340,18 @@ class LabelUnit:
         find = val.args[0].args[0] if ok and shape else None
         # the stripping regex at its two call sites
         mg = world.modules["ctparse.ctparse"].globals
-        strips = _str_consts_in(world.func("ctparse._ctparse").node, "sub", mg) + _str_consts_in(world.func("ctparse.ctparse").node, "sub", mg)
+        # the no-match path: ctparse() itself and the module-level helpers it calls (other than the search and the label / normalisation functions)
+        cnode = world.func("ctparse.ctparse").node
+        nodes = [cnode]
+        for n in ast.walk(cnode):
+            if isinstance(n, ast.Call) and isinstance(n.func, ast.Name) and n.func.id not in ("ctparse_gen", "_ctparse", "_get_labels", "_preprocess_string"):
+                try:
+                    nodes.append(world.func("ctparse." + n.func.id).node)
+                except Exception:
+                    pass
+        strips = _str_consts_in(world.func("ctparse._ctparse").node, "sub", mg)
+        for nd in nodes:
+            strips += _str_consts_in(nd, "sub", mg)
         if len(strips) != 2 or None in strips:
             o = ob("same-strip-pattern-on-both-paths", ["C10"], True)
             o.status, o.detail = "unsupported", "expected one re.sub(<pattern constant>, ...) on each path, found %r" % (strips,)
